@@ -21,13 +21,16 @@ package index
 //@   pure
 //@   ensures result == itemFile(kind, id)
 
-// Any item writer: writes n bytes to the file behind w, contiguously after what it wrote before.
+// Any item writer: writes wtBytes bytes to the file behind w, contiguously after what it wrote before.
+// The count it RETURNS is its own business: nothing is assumed about n (a writer may miscount), so the
+// directory must not derive the file's length from it.
+//@ ghost var wtBytes int
 //@ func WriterTo.WriteTo(recv, w, closeCh) (n, err)
 //@   interface
-//@   modifies fsLen, fsWritten, fsSynced
-//@   ensures n >= 0
-//@   ensures fsWritten == old(fsWritten)[fdPath[iref(w)] := old(fsWritten)[fdPath[iref(w)]] + n]
-//@   ensures fsLen == old(fsLen)[fdPath[iref(w)] := ite(old(fsLen)[fdPath[iref(w)]] < old(fsWritten)[fdPath[iref(w)]] + n, old(fsWritten)[fdPath[iref(w)]] + n, old(fsLen)[fdPath[iref(w)]])]
+//@   modifies fsLen, fsWritten, fsSynced, wtBytes
+//@   ensures wtBytes >= 0
+//@   ensures fsWritten == old(fsWritten)[fdPath[iref(w)] := old(fsWritten)[fdPath[iref(w)]] + wtBytes]
+//@   ensures fsLen == old(fsLen)[fdPath[iref(w)] := ite(old(fsLen)[fdPath[iref(w)]] < old(fsWritten)[fdPath[iref(w)]] + wtBytes, old(fsWritten)[fdPath[iref(w)]] + wtBytes, old(fsLen)[fdPath[iref(w)]])]
 //@   ensures fsSynced == old(fsSynced)[fdPath[iref(w)] := false]
 
 //@ func FileSystemDirectory.Persist
@@ -36,6 +39,7 @@ package index
 //@   requires forall p string :: fsLen[p] >= 0 && !rmFailed[p]
 //@   ensures [success: file exists] result == nil ==> fsExists[pathjoin(d.path, itemFile(kind, id))]
 //@   ensures [success: file holds exactly the bytes written] result == nil ==> fsLen[pathjoin(d.path, itemFile(kind, id))] == fsWritten[pathjoin(d.path, itemFile(kind, id))]
+//@   ensures [success: every byte the item writer produced is in the file] result == nil ==> fsLen[pathjoin(d.path, itemFile(kind, id))] == wtBytes
 //@   ensures [success: synced after the last write] result == nil ==> fsSynced[pathjoin(d.path, itemFile(kind, id))]
 //@   ensures [failure: no partial file] result != nil ==> (!fsExists[pathjoin(d.path, itemFile(kind, id))] ||
 //@       (fsLen == old(fsLen) && fsWritten == old(fsWritten) && fsSynced == old(fsSynced) && old(fsExists)[pathjoin(d.path, itemFile(kind, id))]) ||
@@ -237,6 +241,7 @@ package index
 //@   modifies heldR, heldW, Snapshot.refs
 //@   ensures heldR == old(heldR) && heldW == old(heldW)
 //@   at call addRef: assert heldR[addr(s, rootLock)] || heldW[addr(s, rootLock)]
+//@   effect {C14} refsHeld == old(refsHeld) + 1
 //@   effect {C06} [ASSUMED representation invariant of a published snapshot] result != nil && result == s.root && (forall k int :: (0 <= k && k < len(result.segment)) ==> result.segment[k] != nil)
 
 // ---------------------------------------------------------------------------
@@ -361,8 +366,12 @@ package index
 //@   check nilfunc
 //@   requires [writer-has-its-segment-plugin] s != nil && s.segPlugin != nil
 //@   requires asyncErrorsFired >= asyncFailures
+//@   requires {C14} refsHeld == 0
+//@   ensures {C14} [every-reference-taken-is-given-back-once] refsHeld == 0
+//@   at call Close: assert {C14} [releases-only-the-reference-it-took] refsHeld > 0
 //@   loop 1
 //@     invariant [every-failed-persist-is-reported] asyncErrorsFired >= asyncFailures
+//@     invariant {C14} [no-reference-held-between-rounds] refsHeld == 0
 //@   at call close: assert [ack-only-after-durable-or-error-sent] errSent[ch] || (err == nil && ourSnapshot != nil && snpOnDisk[ourSnapshot.epoch])
 //@   at call funcvalue: assert [callback-only-after-durable] err == nil && ourSnapshot != nil && snpOnDisk[ourSnapshot.epoch]
 
@@ -574,3 +583,23 @@ package index
 //@   at call introducePersist: assert [epochs-strictly-increase] introduceSnapshotEpoch > lastEpochHanded
 //@   loop 1
 //@     invariant nextSnapshotEpoch > lastEpochHanded
+
+// ---------------------------------------------------------------------------
+// C14 / C04: the persister gives back exactly the reference it took on the snapshot it persists,
+// on every path (a second release would drop the root's own reference and close segment files that
+// readers are still using)
+// ---------------------------------------------------------------------------
+//@ ghost var refsHeld int
+//@ func Snapshot.addRef
+//@   props C14
+//@   scoped
+//@   requires i != nil
+//@   modifies refsHeld, Snapshot.refs
+//@   assume_frame
+//@   effect refsHeld == old(refsHeld) + 1
+//@ func Snapshot.Close() (err)
+//@   props C14
+//@   scoped
+//@   requires i != nil
+//@   modifies *
+//@   effect refsHeld == old(refsHeld) - 1
